@@ -30,6 +30,38 @@ def LhsDen.vals : LhsDen F → List (SVal F)
   | .all _ es => es
   | .bad => []
 
+/-! ### sort fields of a sub-query: the declarative condition implies what the two passes check -/
+
+theorem okSort_validate (sg : Sigma T) (t : T) : ∀ (so : List (String × Bool)), okSort sg t so = true →
+    ∀ f, validateSort sg t f so = some f
+  | [], _, _ => rfl
+  | (n, d) :: rest, h, f => by
+    simp only [okSort, List.all_cons, Bool.and_eq_true] at h
+    have ih := okSort_validate sg t rest (by simpa [okSort] using h.2) f
+    simp only [validateSort]
+    cases hs : sg.sym t n with
+    | none => simp [hs] at h
+    | some x =>
+      obtain ⟨τ, b⟩ := x
+      cases b with
+      | true => simp [hs] at h
+      | false => simpa using ih
+
+theorem okSort_typed (sg : Sigma T) (t : T) : ∀ (so : List (String × Bool)), okSort sg t so = true →
+    ∃ so', sortTyped sg t so = some so'
+  | [], _ => ⟨[], rfl⟩
+  | (n, d) :: rest, h => by
+    simp only [okSort, List.all_cons, Bool.and_eq_true] at h
+    obtain ⟨r', ih⟩ := okSort_typed sg t rest (by simpa [okSort] using h.2)
+    simp only [sortTyped, ih]
+    cases hs : sg.sym t n with
+    | none => simp [hs] at h
+    | some x =>
+      obtain ⟨τ, b⟩ := x
+      cases b with
+      | true => simp [hs] at h
+      | false => cases τ <;> simp [hs] at h <;> simp
+
 /-! ### small list facts -/
 
 theorem any_congr_mem {α} (l : List α) (f g : α → Bool) (h : ∀ x ∈ l, f x = g x) : l.any f = l.any g := by
@@ -119,7 +151,7 @@ inductive Operand (w : World C F) (fo : FloatOps F) : TNode F → (C → LhsDen 
       Operand w fo s (fun c => .one .int (.int64 (k c))) .int false
 
 theorem splitSetFn_cnt (b : Bool) (s : TNode F) (hs : IsCountNode s) : splitSetFn b s = (s, none) := by
-  rcases hs with ⟨n, rfl⟩ | ⟨n, q, sk, li, rfl⟩ <;> rfl
+  rcases hs with ⟨n, rfl⟩ | ⟨n, q, so, sk, li, rfl⟩ <;> rfl
 
 theorem cmp_bridge (w : World C F) (fo : FloatOps F) (hw : SeekOK w) {s : TNode F} {d : C → LhsDen F}
     {τ : NodeType} {nl : Bool} (ho : Operand w fo s d τ nl) (op : Op) (r : Lit F)
@@ -328,18 +360,18 @@ theorem refine_main (sg : Sigma T) (w : World C F) (fo : FloatOps F) (hw : SeekO
             (fun c lk => by simp [evalInt]), ?_⟩
           · simp [transform, typedSym_eq sg t n τ' true hs hτ]
           · intro c; simp [lhsDen]
-  | setFnSub fn n q sk li ih =>
+  | setFnSub fn n q so sk li ih =>
     intro t
     have key : ∀ τ' t', sg.sym t n = some (τ', true) → τ' ≠ .other → sg.setTypes t n = some t' →
         wellTyped sg fo t' q = true →
         ∃ q', asBool (transform sg fo t' q) = .ok q' ∧
           ∀ c, scanCount (fun c' => evalBool w fo c' (w.val c') q') w.nilRow (pagingOffset sk) (pagingLimit li)
               (w.subRows c n) 0 0 =
-            (paged sk li ((liveRows w c n).filter fun c' => sat sg w fo t' c' q)).length := by
+            (paged sk li (sortBy (w.rowLe so) ((liveRows w c n).filter fun c' => sat sg w fo t' c' q))).length := by
       intro τ' t' _ _ hst hq
       obtain ⟨q', hq', hqb, hqe⟩ := (ih t').1 hq
       refine ⟨q', by simp [asBool, hq', hqb], fun c => ?_⟩
-      rw [scanCount_paged]
+      rw [scanCount_sorted _ _ (w.rowLe so)]
       have : (fun c' => evalBool w fo c' (w.val c') q') = (fun c' => sat sg w fo t' c' q) := funext hqe
       rw [this]
       rfl
@@ -356,11 +388,12 @@ theorem refine_main (sg : Sigma T) (w : World C F) (fo : FloatOps F) (hw : SeekO
           | none => cases b <;> simp [hs, hst] at hwt
           | some t' =>
             cases b <;> simp [hs, hst] at hwt
-            obtain ⟨q', hq', hcnt⟩ := key τ' t' hs hwt.1 hst hwt.2
-            refine ⟨.isEmptyQ n q' sk li, ?_, rfl, fun c => ?_⟩
-            · simp [transform, typedSym_eq sg t n τ' true hs hwt.1, hst, hq']
+            obtain ⟨q', hq', hcnt⟩ := key τ' t' hs hwt.1.1 hst hwt.1.2
+            obtain ⟨so', hso'⟩ := okSort_typed sg t' so hwt.2
+            refine ⟨.isEmptyQ n q' so' sk li, ?_, rfl, fun c => ?_⟩
+            · simp [transform, typedSym_eq sg t n τ' true hs hwt.1.1, hst, hq', hso']
             · simp only [evalBool, sat, hst, hcnt c]
-              cases paged sk li (List.filter (fun c' => sat sg w fo t' c' q) (liveRows w c n)) <;> simp
+              cases paged sk li (sortBy (w.rowLe so) (List.filter (fun c' => sat sg w fo t' c' q) (liveRows w c n))) <;> simp
       | _ => simp [wellTyped] at hwt
     · intro τ nl hl
       cases fn with
@@ -374,13 +407,14 @@ theorem refine_main (sg : Sigma T) (w : World C F) (fo : FloatOps F) (hw : SeekO
           | none => cases b <;> simp [hs, hst] at hl
           | some t' =>
             cases b <;> simp [hs, hst] at hl
-            obtain ⟨⟨hτ, hq⟩, rfl, rfl⟩ := hl
+            obtain ⟨⟨hτ, hq, hso⟩, rfl, rfl⟩ := hl
             obtain ⟨q', hq', hcnt⟩ := key τ' t' hs hτ hst hq
-            refine ⟨.countQ n q' sk li, _, ?_,
-              Operand.cnt (.countQ n q' sk li) (Or.inr ⟨n, q', sk, li, rfl⟩)
-                (fun c => (paged sk li ((liveRows w c n).filter fun c' => sat sg w fo t' c' q)).length)
+            obtain ⟨so', hso'⟩ := okSort_typed sg t' so hso
+            refine ⟨.countQ n q' so' sk li, _, ?_,
+              Operand.cnt (.countQ n q' so' sk li) (Or.inr ⟨n, q', so', sk, li, rfl⟩)
+                (fun c => (paged sk li (sortBy (w.rowLe so) ((liveRows w c n).filter fun c' => sat sg w fo t' c' q))).length)
                 (fun c lk => by simp [evalInt, hcnt c]), ?_⟩
-            · simp [transform, typedSym_eq sg t n τ' true hs hτ, hst, hq']
+            · simp [transform, typedSym_eq sg t n τ' true hs hτ, hst, hq', hso']
             · intro c; simp [lhsDen, hst]
       | _ => simp [lhsType] at hl
   | boolC b =>
@@ -487,7 +521,7 @@ theorem validate_ok (sg : Sigma T) (fo : FloatOps F) :
       cases hs : sg.sym t n with
       | none => cases fn <;> simp [lhsType, hs] at h
       | some y => obtain ⟨τ, b⟩ := y; cases fn <;> cases b <;> simp [lhsType, hs] at h <;> simp [validate, hs]
-  | setFnSub fn n q sk li ih =>
+  | setFnSub fn n q so sk li ih =>
     intro t
     constructor
     · intro h inSet
@@ -499,10 +533,10 @@ theorem validate_ok (sg : Sigma T) (fo : FloatOps F) :
         | none => cases fn <;> cases b <;> simp [wellTyped, hs, hst] at h
         | some t' =>
           cases fn <;> cases b <;> simp [wellTyped, hs, hst] at h
-          have := (ih t').1 h.2 true
+          have := (ih t').1 h.1.2 true
           cases hv : validate sg t' true q with
           | none => simp [hv] at this
-          | some _ => simp [validate, hs, hst, hv]
+          | some f => simp [validate, hs, hst, hv, okSort_validate sg t' so h.2 f]
     · intro x h inSet
       cases hs : sg.sym t n with
       | none => cases fn <;> simp [lhsType, hs] at h
@@ -512,10 +546,10 @@ theorem validate_ok (sg : Sigma T) (fo : FloatOps F) :
         | none => cases fn <;> cases b <;> simp [lhsType, hs, hst] at h
         | some t' =>
           cases fn <;> cases b <;> simp [lhsType, hs, hst] at h
-          have := (ih t').1 h.1.2 true
+          have := (ih t').1 h.1.2.1 true
           cases hv : validate sg t' true q with
           | none => simp [hv] at this
-          | some _ => simp [validate, hs, hst, hv]
+          | some f => simp [validate, hs, hst, hv, okSort_validate sg t' so h.1.2.2 f]
   | boolC b => intro t; exact ⟨fun _ _ => rfl, fun x h => by simp [lhsType] at h⟩
   | cmp op l r ih =>
     intro t
